@@ -1,4 +1,124 @@
 /-
-C02 — Softmax helper lemmas (placeholder header; filled below).
+C02 — Softmax helper lemmas (none of these is a property statement): the matrix of partial derivatives
+`J = diag(1/x) + (1/(1-s)) 1 1ᵀ` over `Fin n`, its determinant for every `n` by the matrix determinant lemma
+(`J = diag(1/x) (1 + x cᵀ)`, `det(1 + u vᵀ) = 1 + v·u`), the partial derivatives of the coordinate functions, and
+the bridges between the list model (`sumL`, `prodL`, `fwdRow`, `pdEntry`) and `Fin n → ℝ`.
 -/
 import HydroVerif.Lemmas.C02
+import Mathlib.LinearAlgebra.Matrix.SchurComplement
+import Mathlib.Algebra.BigOperators.Fin
+
+namespace HydroVerif.C02
+open HydroVerif.C01 Matrix Finset
+
+namespace Softmax
+open HydroVerif.C01.Softmax
+
+/-- `∂y_i/∂x_j = δ_ij/x_i + 1/(1 - Σx)` -/
+noncomputable def pdMat {n : ℕ} (x : Fin n → ℝ) : Matrix (Fin n) (Fin n) ℝ :=
+  Matrix.of fun i j => (if i = j then 1 / x i else 0) + 1 / (1 - ∑ k, x k)
+
+/-- coordinate `i` of the forward transform of the row `x` -/
+noncomputable def fwdFn {n : ℕ} (x : Fin n → ℝ) (i : Fin n) : ℝ := Real.log (x i / (1 - ∑ k, x k))
+
+theorem pdMat_factor {n : ℕ} (x : Fin n → ℝ) (hx : ∀ i, x i ≠ 0) :
+    pdMat x = Matrix.diagonal (fun i => 1 / x i) *
+      (1 + replicateCol Unit x * replicateRow Unit (fun _ => 1 / (1 - ∑ k, x k))) := by
+  rw [Matrix.mul_add, Matrix.mul_one]
+  ext i j
+  rw [Matrix.add_apply, Matrix.diagonal_mul]
+  simp only [pdMat, Matrix.of_apply, Matrix.diagonal_apply, Matrix.mul_apply, replicateCol_apply,
+    replicateRow_apply, Finset.univ_unique, Finset.sum_singleton]
+  congr 1
+  have := hx i
+  field_simp
+
+/-- the determinant of the matrix of partial derivatives, for every size `n` -/
+theorem det_pdMat {n : ℕ} (x : Fin n → ℝ) (hx : ∀ i, x i ≠ 0) :
+    (pdMat x).det = (1 + (∑ k, x k) / (1 - ∑ k, x k)) / ∏ k, x k := by
+  rw [pdMat_factor x hx, Matrix.det_mul, Matrix.det_diagonal, det_one_add_replicateCol_mul_replicateRow]
+  have h1 : (fun _ : Fin n => 1 / (1 - ∑ k, x k)) ⬝ᵥ x = (∑ k, x k) / (1 - ∑ k, x k) := by
+    simp only [dotProduct, ← Finset.mul_sum]
+    ring
+  rw [h1, Finset.prod_div_distrib, Finset.prod_const_one]
+  ring
+
+/-- every partial derivative is positive on the domain: each output increases with each input -/
+theorem pdMat_pos {n : ℕ} (x : Fin n → ℝ) (hpos : ∀ k, 0 < x k) (hs : ∑ k, x k < 1) (i j : Fin n) :
+    0 < pdMat x i j := by
+  simp only [pdMat, Matrix.of_apply]
+  have h1 : 0 < 1 / (1 - ∑ k, x k) := by apply div_pos one_pos; linarith
+  split_ifs
+  · have := hpos i; positivity
+  · linarith
+
+theorem sum_update {n : ℕ} (x : Fin n → ℝ) (j : Fin n) (t : ℝ) :
+    ∑ k, Function.update x j t k = t + (∑ k, x k - x j) := by
+  rw [Finset.sum_update_of_mem (Finset.mem_univ j), Finset.sdiff_singleton_eq_erase,
+    Finset.sum_erase_eq_sub (Finset.mem_univ j)]
+
+/-- `∂ forward(x)_i / ∂ x_j` is the `(i, j)` entry of `pdMat x` -/
+theorem hasDerivAt_fwdFn {n : ℕ} (x : Fin n → ℝ) (hpos : ∀ k, 0 < x k) (hs : ∑ k, x k < 1) (i j : Fin n) :
+    HasDerivAt (fun t => fwdFn (Function.update x j t) i) (pdMat x i j) (x j) := by
+  have hd0 : 0 < 1 - ∑ k, x k := by linarith
+  set r := ∑ k, x k - x j with hr
+  have hden : HasDerivAt (fun t : ℝ => 1 - (t + r)) (-1) (x j) := by
+    have := ((hasDerivAt_id (x j)).add_const r).const_sub 1
+    simpa using this
+  have hden0 : 1 - (x j + r) = 1 - ∑ k, x k := by rw [hr]; ring
+  simp only [fwdFn, sum_update, pdMat, Matrix.of_apply]
+  by_cases hij : i = j
+  · subst hij
+    simp only [Function.update_self, if_true]
+    have hq : HasDerivAt (fun t : ℝ => t / (1 - (t + r)))
+        ((1 * (1 - (x i + r)) - x i * -1) / (1 - (x i + r)) ^ 2) (x i) :=
+      (hasDerivAt_id (x i)).fun_div hden (by rw [hden0]; exact hd0.ne')
+    have hq0 : x i / (1 - (x i + r)) ≠ 0 := by rw [hden0]; exact (div_pos (hpos i) hd0).ne'
+    refine (hq.log hq0).congr_deriv ?_
+    rw [hden0]
+    have := (hpos i).ne'
+    field_simp
+    ring
+  · simp only [Function.update_of_ne hij, if_neg hij, zero_add]
+    have hq : HasDerivAt (fun t : ℝ => x i / (1 - (t + r)))
+        ((0 * (1 - (x j + r)) - x i * -1) / (1 - (x j + r)) ^ 2) (x j) :=
+      (hasDerivAt_const (x j) (x i)).fun_div hden (by rw [hden0]; exact hd0.ne')
+    have hq0 : x i / (1 - (x j + r)) ≠ 0 := by rw [hden0]; exact (div_pos (hpos i) hd0).ne'
+    refine (hq.log hq0).congr_deriv ?_
+    rw [hden0]
+    have := (hpos i).ne'
+    field_simp
+    ring
+
+/-! ### bridges to the list model -/
+
+theorem prodFrom_eq (acc : ℝ) (xs : List ℝ) : prodFrom acc xs = acc * xs.prod := by
+  induction xs generalizing acc with
+  | nil => simp [prodFrom]
+  | cons x xs ih => simp [prodFrom, ih, mul_assoc]
+
+theorem prodL_eq (xs : List ℝ) : prodL xs = xs.prod := by
+  simp [prodL, prodFrom_eq]
+
+theorem sum_get (xs : List ℝ) : ∑ k : Fin xs.length, xs[k] = xs.sum := by
+  conv_rhs => rw [← List.ofFn_getElem (xs := xs)]
+  rw [List.sum_ofFn]
+  rfl
+
+theorem prod_get (xs : List ℝ) : ∏ k : Fin xs.length, xs[k] = xs.prod := by
+  conv_rhs => rw [← List.ofFn_getElem (xs := xs)]
+  rw [List.prod_ofFn]
+  rfl
+
+/-- the executable entry of Model/C02 is the entry of `pdMat` at the row read as a function on `Fin n` -/
+theorem pdEntry_eq (xs : List ℝ) (i j : Fin xs.length) :
+    C02.Softmax.pdEntry xs i j = pdMat (fun k : Fin xs.length => xs[k]) i j := by
+  simp only [C02.Softmax.pdEntry, pdMat, Matrix.of_apply, sumL_eq, sum_get]
+
+/-- the forward row of the model, read coordinate by coordinate -/
+theorem fwdRow_ofFn {n : ℕ} (x : Fin n → ℝ) : fwdRow (List.ofFn x) = List.ofFn (fwdFn x) := by
+  simp only [fwdRow, sumL_eq, List.sum_ofFn, transc_log, List.map_ofFn]
+  rfl
+
+end Softmax
+end HydroVerif.C02
